@@ -94,6 +94,12 @@ def _world(ctx, sigma):
             prob.add_fluent(fl)
         prob.add_objects(objs)
         w.problem = prob
+        # the same fluents over a larger object set: what remove_quantifiers returns depends on the objects_set argument
+        prob2 = Problem("c14b", env)
+        for fl in (w.fx, w.fu, w.fb, w.fc, w.ff, w.fp):
+            prob2.add_fluent(fl)
+        prob2.add_objects(objs + [Object("o3", T, env)])
+        w.problem2 = prob2
         E = em
         x, u, b, c = E.FluentExp(w.fx), E.FluentExp(w.fu), E.FluentExp(w.fb), E.FluentExp(w.fc)
         y, v = E.VariableExp(w.vy), E.VariableExp(w.vv)
@@ -197,6 +203,8 @@ def run_call(w, name):
             return ("ok", "set", tuple(skey(f) for f in w.env.free_vars_extractor.get(w.ex[i])))
         if kind == "qr":
             return ("ok", "expr", skey(w.remover.remove_quantifiers(w.ex[i], w.problem)))
+        if kind == "qrb":
+            return ("ok", "expr", skey(w.remover.remove_quantifiers(w.ex[i], w.problem2)))
         if kind == "ev":
             return ("ok", "expr", skey(w.evaluator.evaluate(w.ex[i], w.state)))
         if kind == "build":
@@ -295,6 +303,10 @@ def shards(tier, seed):
                         budget=900 if deep else 150, per_path=30))
     out.append(dict(name="sym-nofail", fn="h_history", kwargs=dict(pool=[c for c in NOFAIL_POOL if c not in CONCRETE_ONLY][:12 if deep else 6], n_calls=n - 1), budget=900 if deep else 100,
                     per_path=30))
+    # one quantifier-removing walker asked about two object sets
+    OBJSETS = ["qr:5", "qrb:5", "qr:6", "qrb:6", "qr:2", "qrb:2"]
+    out.append(dict(name="sym-objsets", fn="h_history", kwargs=dict(pool=OBJSETS if deep else ["qr:2", "qrb:2", "qr:5", "qrb:5"], n_calls=n if deep else 2), budget=900 if deep else 150, per_path=30))
+    out.append(dict(name="direct-objsets", fn="h_history", kwargs=dict(pool=OBJSETS, n_calls=n, sym=False), budget=2700 if deep else 600, engine="direct"))
     # concrete sigma, real dict, direct engine: every call of the history is a choice
     for f in FAILING_FIRST:
         # (the direct engine's budget is wall time; the machine is shared)
